@@ -25,7 +25,7 @@ TREE = """```
   vlib/                      python3 (stdlib only): core.py (TLC runner, harness build/drive, trace validation, evidence, known findings),
                              generic.py (generate-and-replay), cNN.py (one module per property)
   bin/check                  `bin/check C13 --tier quick|thorough [--replay f]`; bin/setup; bin/mkmanifest (regenerates MANIFEST.json);
-                             bin/seedtest, bin/seedverify, bin/seedkeep, bin/seedmatrix (seeded-change tooling, section 9)
+                             bin/seedtest, bin/seedverify, bin/seedkeep, bin/seedmatrix, bin/seedmatrixwt (seeded-change tooling, section 9)
   evidence/<id>.json  replays/<id>/<hash>.json  seeded/<id><A..F>/{patch.diff, zz_seed_demo_test.go, meta.json}  seeded/RESULTS.tsv
 ```
 """
